@@ -199,6 +199,10 @@ func (a *AreaMembers) MergeFrom(other AreaMembers) {
 		a.ids = a.ids[0:len(other.ids)]
 	}
 	for i, ids := range other.ids {
+		if ids == nil {
+			a.ids[i] = nil // Defined by a polygon, rather than paths
+			continue
+		}
 		j := copy(a.ids[i], ids)
 		if j < len(ids) {
 			a.ids[i] = append(a.ids[i], ids[j:]...)
